@@ -669,6 +669,311 @@ def eval_cli(ctx, groups, variant):
                              replay_obj=rep, no_input=False, finding='D3' if d3 else None, _size=len(c['gvfs'][0])))
     return results, viol, stats
 
+# ----------------------------------------------------------------------------- stream (iii): record order / identity
+# VariantRecord.__eq__ / __gt__ / __ge__ / __lt__ / __le__ / __hash__, FeatureLocation == / >, sorted() and set() on REAL
+# objects vs Model/VarRecord.v; and the statement itself on the real objects: for records the model calls
+# conflict_free, sorted() of every permutation is the same id sequence.
+HASH_ATTRS = ['DONOR_TRANSCRIPT_ID', 'START', 'END', 'DONOR_START', 'DONOR_END', 'LEFT_INSERT_START', 'LEFT_INSERT_END',
+              'RIGHT_INSERT_START', 'RIGHT_INSERT_END', 'ACCEPTER_TRANSCRIPT_ID', 'ACCEPTER_POSITION']
+STRAND_LEVEL = {None: 0, 0: 1, -1: 2, 1: 3}
+
+def vr_enc(r):
+    at = r.get('attrs') or {}
+    return [r['start'], r['end'], STRAND_LEVEL[r['strand']], r['ref'], r['alt'], r['type'],
+            [[repr(at[k])] if k in at else [] for k in HASH_ATTRS], r['id']]
+
+def gen_vr_list(rng, n):
+    """records crowded on one or two positions so that ties, conflicts and duplicates are frequent"""
+    starts = rng.sample(range(5, 40), rng.choice([1, 1, 2]))
+    refseq = ''.join(rng.choice('ACGT') for _ in range(60))
+    mixed_strand = rng.random() < 0.15
+    out = []
+    for k in range(n):
+        if rng.random() < 0.05 and k + 1 < n:                 # same location and alt, DIFFERENT ref: `<` both ways (only the types
+            st = rng.choice(starts)                           # whose ref need not have the length of the location allow it)
+            typ, alt = rng.choice([('Deletion', '<DEL>'), ('Substitution', '<SUB>')])
+            for ref in rng.sample('ACGT', 2):
+                out.append(dict(start=st, end=st + 4, strand=None, ref=ref, alt=alt, type=typ, attrs={'START': str(st), 'END': str(st + 4)},
+                                id='%s-%d-%s-%d' % (typ, st, ref, len(out))))
+            continue
+        if out and rng.random() < 0.12:                       # an identical record delivered twice
+            out.append(dict(rng.choice(out)))
+            continue
+        if out and rng.random() < 0.12:                       # `==` but not identical: other id and / or other attrs
+            r = dict(rng.choice(out), id='dup%d' % k)
+            if rng.random() < 0.5:
+                r['attrs'] = dict(r.get('attrs') or {}, **{rng.choice(HASH_ATTRS): rng.choice(['7', '12', 'ENST1', 12])})
+            out.append(r)
+            continue
+        st = rng.choice(starts)
+        x = rng.random()
+        ref1 = refseq[st]
+        if x < 0.3:
+            typ, ref, alt = rng.choice(['SNV', 'SNV', 'RNAEditingSite']), ref1, rng.choice([b for b in 'ACGT' if b != ref1])
+        elif x < 0.55:
+            typ, ref, alt = 'INDEL', ref1, ref1 + rng.choice(['A', 'G', 'CT', 'T', 'AC'])
+        elif x < 0.7:
+            ref = refseq[st:st + rng.choice([2, 3])]
+            typ, alt = 'INDEL', ref[0]
+        elif x < 0.85:
+            ref = refseq[st:st + rng.choice([2, 3])]
+            typ, alt = 'MNV', ''.join(rng.choice('ACGT') for _ in range(rng.choice([2, 3])))
+        elif x < 0.9:
+            typ, ref, alt = 'Fusion', ref1, '<FUSION>'
+        elif x < 0.95:
+            typ, ref, alt = 'Insertion', ref1, '<INS>'
+        else:
+            typ, ref, alt = rng.choice(['Deletion', 'Substitution']), rng.choice([ref1, rng.choice('ACGT')]), rng.choice(['<DEL>', '<SUB>'])
+        end = st + len(ref) if typ not in ('Deletion', 'Substitution') else st + rng.choice([1, 4, 9])
+        attrs = {}
+        if typ in ('Insertion', 'Substitution') or rng.random() < 0.1:
+            attrs['DONOR_START'] = rng.choice(['40', '44']); attrs['DONOR_END'] = rng.choice(['50', '52'])
+        if typ == 'Fusion':
+            attrs['ACCEPTER_TRANSCRIPT_ID'] = rng.choice(['ENST1', 'ENST2']); attrs['ACCEPTER_POSITION'] = rng.choice(['3', '9'])
+        if typ in ('Deletion', 'Substitution'):
+            attrs['START'] = str(st); attrs['END'] = str(end)
+        out.append(dict(start=st, end=end, strand=rng.choice([None, 0, -1, 1]) if mixed_strand else None, ref=ref, alt=alt,
+                        type=typ, attrs=attrs, id='%s-%d-%s-%s-%d' % (typ, st, ref, alt, k)))
+    return out[:max(n, 2)]
+
+def vr_cases(rng, quick):
+    import itertools
+    cases = []
+    for k in range(300 if quick else 4000):
+        n = rng.choice([2, 2, 2, 3, 3, 4, 5, 7])
+        recs = gen_vr_list(rng, n)
+        pairs = [(i, j) for i in range(n) for j in range(n)]
+        if len(pairs) > 16:
+            pairs = rng.sample(pairs, 16)
+        perms = [list(range(n)), list(reversed(range(n)))]
+        for _ in range(2 if n > 2 else 0):
+            q = list(range(n)); rng.shuffle(q); perms.append(q)
+        cases.append(dict(kind='vr', records=recs, pairs=pairs, perms=perms))
+    return cases
+
+def eval_vr(ctx, cases):
+    impl = I.run_cases('c06', cases, jobs=max(1, min(ctx.jobs, (len(cases) + 99) // 100)), tag='c06v')
+    reqs = []
+    for c in cases:
+        encs = [vr_enc(r) for r in c['records']]
+        for i, j in c['pairs']:
+            reqs.append(('c06_vr_cmp', [encs[i], encs[j]]))
+        for perm in c['perms']:
+            reqs.append(('c06_vr_sorted', [[encs[k] for k in perm]]))
+    model = iter(O.call_parallel(reqs, jobs=8))
+    viol, stats, nontriv = [], collections.Counter(), 0
+    names = ['__eq__', '__gt__', '__ge__', '__lt__', '__le__', 'hash equal', 'location ==', 'location >']
+    for c, r in zip(cases, impl):
+        mc = [next(model) for _ in c['pairs']]
+        ms = [next(model) for _ in c['perms']]
+        small = dict(kind='vr', records=c['records'], pairs=c['pairs'], perms=c['perms'])
+        if not isinstance(r, dict) or 'cmp' not in r:
+            viol.append(dict(what='VariantRecord construction / comparison raised: %s' % str(r)[:200], replay_obj={'kind': 'vr', 'case': small},
+                             no_input=False))
+            continue
+        cf = bool(ms[0][1])
+        stats['vr:lists ' + ('conflict-free' if cf else 'with a conflicting pair')] += 1
+        # (1) the statement on the REAL objects: conflict-free records sort the same way from every delivery order
+        sorted_sets = {json.dumps(x) for x in r['sorted']}
+        prop_ok = (not cf) or len(sorted_sets) == 1
+        if not cf and len(sorted_sets) > 1:
+            stats['vr:real sorted() differs between delivery orders (conflicting pair, as the refuted theorem says)'] += 1
+        # (2) model vs implementation
+        diffs = []
+        for (i, j), m, got in zip(c['pairs'], mc, r['cmp']):
+            want = [bool(m[0]), bool(m[1]), bool(m[2]), bool(m[3]), bool(m[4]), bool(m[5]), bool(m[9]), bool(m[10])]
+            if m[7]:
+                stats['vr:pairs `>` both ways'] += 1
+            if m[8]:
+                stats['vr:pairs `<` both ways'] += 1
+            if m[0] and not m[5]:
+                stats['vr:pairs == with different hash'] += 1
+            for nm, w, g in zip(names, want, got):
+                if w != g:
+                    diffs.append('%s(%s, %s): code %s, model %s' % (nm, c['records'][i]['id'], c['records'][j]['id'], g, w))
+        for perm, m, got_sorted, got_set in zip(c['perms'], ms, r['sorted'], r['set']):
+            want_ids = [O.U(x) for x in m[0]]
+            if cf or len(perm) <= 2:
+                stats['vr:sorted() compared exactly'] += 1
+                if want_ids != got_sorted:
+                    diffs.append('sorted(%s): code %s, model %s' % ([c['records'][k]['id'] for k in perm], got_sorted, want_ids))
+            else:
+                stats['vr:sorted() on > 2 conflicting records (CPython binary insertion, not modelled): ' +
+                      ('same as the model' if want_ids == got_sorted else 'differs from the model')] += 1
+                if sorted(want_ids) != sorted(got_sorted):
+                    diffs.append('sorted() is not a rearrangement of its input')
+            if sorted(O.U(x) for x in m[2]) != got_set:
+                diffs.append('set(%s): code keeps %s, model %s' % ([c['records'][k]['id'] for k in perm], got_set, sorted(O.U(x) for x in m[2])))
+        if cf and len(c['records']) > 1:
+            nontriv += 1
+        if prop_ok and not diffs:
+            stats['vr:agree'] += 1
+            continue
+        if not prop_ok:
+            viol.append(dict(what='records the model calls conflict-free are sorted differently by the real sorted() depending on the order '
+                                  'in which they are delivered: %s%s' % (sorted(sorted_sets)[:2], ('; ' + '; '.join(diffs[:3])) if diffs else ''),
+                             replay_obj={'kind': 'vr', 'case': small}, no_input=False, _size=len(c['records'])))
+        else:
+            viol.append(dict(what='record comparison differs from Model/VarRecord.v although sorted() is the same for every delivery order: '
+                                  + '; '.join(diffs[:4]),
+                             replay_obj={'kind': 'correspondence', 'name': 'corr:C06/VariantRecord-order', 'case': small, 'example': diffs[:4]},
+                             no_input=True, _harmless=True, _size=len(c['records'])))
+    return viol, stats, nontriv
+
+# ----------------------------------------------------------------------------- stream (iv): `order`
+# callVariant on transcripts that carry a CONFLICTING pair / triple at one position (records that are `>` each other, so
+# list.sort() keeps their delivery order - sorted_layout_dependent_refuted): every order of the group inside one GVF, the
+# group split over two GVF files in either file order, three hash seeds (set() iteration order).  The peptide SEQUENCES
+# must not depend on it (the statement of C06); the order of the sorted series is observed in the worker (it does vary),
+# header differences are counted after the configuration was checked against itself.
+def conflict_group(rng, world, gene, tx, kind):
+    gs = G.gene_seq(world, gene)
+    n = G.tx_len(tx)
+    lo, hi = tx['cds'][0] + 3, tx['cds'][1] - 6
+    cands = []
+    for ti in range(lo, hi):
+        gi = G.g2gene(gene, G.tx2g(gene, tx, ti))
+        if gs[gi] == 'A':
+            continue
+        if kind == 'mnv+del' and not (ti + 3 < n and abs(G.tx2g(gene, tx, ti + 3) - G.tx2g(gene, tx, ti)) == 3):
+            continue
+        cands.append((ti, gi))
+    if not cands:
+        return None
+    ti, gi = rng.choice(cands)
+    r = gs[gi]
+    base = dict(gene=gene['id'], tx=tx['id'], chrom=gene['chrom'], gpos=G.tx2g(gene, tx, ti) + 1, symbol=gene['name'], pos=gi + 1)
+    def rec(ref, alt, typ):
+        return dict(base, ref=ref, alt=alt, id='%s-%d-%s-%s' % (typ, gi + 1, ref, alt))
+    low = [b for b in 'ACGT' if b < r]
+    if kind == 'snv+ins':             # 'A' < 'CG' but 'SNV' > 'INDEL'
+        return [rec(r, rng.choice(low), 'SNV'), rec(r, r + rng.choice(['A', 'CT', 'GGA', 'T', 'G']), 'INDEL')]
+    if kind == 'snv+2ins':            # the SNV is unrelated to both insertions, which are ordered between themselves
+        x, y = rng.sample(['A', 'CT', 'GGA', 'T', 'G', 'AC'], 2)
+        return [rec(r, rng.choice(low), 'SNV'), rec(r, r + x, 'INDEL'), rec(r, r + y, 'INDEL')]
+    if kind == 'mnv+del':             # deletion CAT>C (INDEL) and MNV CAT>AG..: 'AG' < 'C' but 'MNV' > 'INDEL'
+        ref = gs[gi:gi + 3]
+        alt = rng.choice(low) + ''.join(rng.choice('ACGT') for _ in range(rng.choice([1, 2])))
+        return [rec(ref, ref[0], 'INDEL'), rec(ref, alt, 'MNV')]
+    return None
+
+def gen_order_world(rng, kind):
+    for _ in range(300):
+        world = G.gen_world(rng, n_chrom=1, max_genes=2, small=True, sec_p=0.0, nf_p=0.0, multi_iso_p=0.3)
+        txs = [(g, t) for g in world['genes'] for t in g['transcripts'] if t['cds'] and t['cds'][1] - t['cds'][0] > 40]
+        if not txs:
+            continue
+        gene, tx = rng.choice(txs)
+        grp = conflict_group(rng, world, gene, tx, kind)
+        if grp:
+            break
+    else:
+        return None
+    others, used = [], {grp[0]['pos']}
+    for _k in range(rng.choice([0, 1, 2])):
+        ti = rng.randrange(tx['cds'][0] + 3, tx['cds'][1] - 3)
+        r = mk_record(rng, world, gene, tx, ti, 'snv')
+        if all(abs(r['pos'] - u) > 4 for u in used):
+            used.add(r['pos']); others.append(r)
+    return dict(world=world_texts(world), group=grp, others=others, kind=kind)
+
+ORDER_SEEDS = ('0', '1', '2')
+VR_THEOREMS = {'varrecord_eq_equivalence', 'hash_key_eq', 'hash_key_eq_unguarded_refuted', 'eq_hash_consistent_refuted',
+               'eq_hash_consistent_guarded', 'gt_not_antisymmetric_refuted', 'gt_conflict_iff', 'pair_not_ok_cases', 'sorted_perm',
+               'sorted_layout_free', 'sorted_unique', 'sorted_is_sorted', 'sorted_layout_dependent_refuted', 'sorted_triple_refuted',
+               'conflict_free_example', 'dedup_layout_free', 'dedup_layout_dependent_refuted', 'code_varrecord_methods_translated'}
+
+def order_cases(rng, quick):
+    import itertools
+    groups = []
+    for wi in range(6 if quick else 90):
+        kind = ['snv+ins', 'snv+2ins', 'mnv+del'][wi % 3]
+        w = gen_order_world(rng, kind)
+        if w is None:
+            continue
+        groups.append(('ord%d' % wi, w, order_variants(w, 'ord%d' % wi)))
+    return groups
+
+def order_variants(w, wid):
+    import itertools
+    base = dict(kind='cli', wid=wid, world=w['world'], threads=1, gvf_idx=False, index_dir=False, noncanonical=False,
+                headers=True, observe_series=True)
+    variants = []
+    for pi, perm in enumerate(itertools.permutations(w['group'])):
+        recs = list(perm) + w['others']
+        for hs in ORDER_SEEDS:
+            variants.append(('one-file/order%d/hashseed-%s' % (pi, hs), dict(base, gvfs=[gvf_text(recs)]), hs))
+        if pi < 2:
+            a, b = [perm[0]] + w['others'], list(perm[1:])
+            variants.append(('two-files/order%d' % pi, dict(base, gvfs=[gvf_text(a), gvf_text(b)]), '0'))
+            variants.append(('two-files-reversed/order%d' % pi, dict(base, gvfs=[gvf_text(b), gvf_text(a)]), '0'))
+    return variants
+
+def eval_order(ctx, groups):
+    flat = [(wi, name, c, hs) for wi, w, vs in groups for name, c, hs in vs]
+    results = {}
+    for hs in sorted({x[3] for x in flat}):
+        sub = [x for x in flat if x[3] == hs]
+        out = I.run_cases('c06', [x[2] for x in sub], jobs=max(1, min(ctx.jobs, (len(sub) + 5) // 6)), hashseed=hs, tag='c06o' + hs)
+        for x, r in zip(sub, out):
+            results[(x[0], x[1])] = r
+    viol, stats, nontriv = [], collections.Counter(), 0
+    pending = []
+    for wi, w, vs in groups:
+        name0, c0, hs0 = vs[0]
+        base = results[(wi, name0)]
+        gids = [r['id'] for r in w['group']]
+        if not isinstance(base, dict) or base.get('peptides') is None:
+            viol.append(dict(what='callVariant failed on a transcript with the conflicting records %s: %s' % (gids, str(base)[:200]),
+                             replay_obj={'kind': 'order', 'variant': name0, 'hashseed': hs0, 'case': c0, 'baseline_case': c0, 'baseline_hashseed': hs0,
+                                         'group': gids}, no_input=False))
+            continue
+        orders = set()
+        hdr_diff = []
+        for name, c, hs in vs:
+            r = results[(wi, name)]
+            stats['order/' + w['kind']] += 1
+            if isinstance(r, dict):
+                for ids in r.get('series') or []:
+                    orders.add(tuple(i for i in ids if i in gids))
+            if isinstance(r, dict) and r.get('peptides') == base['peptides']:
+                stats['order:sequences equal'] += 1
+                if r.get('entries') != base.get('entries'):
+                    hdr_diff.append((name, c, hs))
+                continue
+            stats['order:sequences differ'] += 1
+            rep = {'kind': 'order', 'variant': name, 'hashseed': hs, 'case': c, 'baseline_case': c0, 'baseline_hashseed': hs0, 'group': gids,
+                   'peptides': r.get('peptides') if isinstance(r, dict) else r, 'baseline_peptides': base['peptides'],
+                   'series': r.get('series') if isinstance(r, dict) else None, 'baseline_series': base.get('series')}
+            viol.append(dict(what='records %s that are `>` each other on one transcript: the peptide set of layout %s differs from layout %s: '
+                                  '%s vs %s peptides (sorted series seen: %s vs %s)' % (
+                                      gids, name, name0, len(rep['peptides']) if isinstance(rep['peptides'], list) else rep['peptides'],
+                                      len(base['peptides']), rep['series'], rep['baseline_series']),
+                             replay_obj=rep, no_input=False, _size=len(c['gvfs'][0])))
+        if base['peptides']:
+            nontriv += 1
+        stats['order:worlds in which the sorted series was seen in %s order(s) of the group' % ('1' if len(orders) <= 1 else '2+')] += 1
+        if hdr_diff:
+            same = [x for x in hdr_diff if x[2] == hs0]
+            pending.append((wi, (same or hdr_diff)[0], (name0, c0, hs0)))
+    # headers: is a configuration a function of its input at all?  the differing layout and the baseline layout are run
+    # four more times each (same hash seed); batched per hash seed
+    rer = {}
+    for wi, (name, c, hs), (name0, c0, hs0) in pending:
+        rer.setdefault(hs, []).extend([(wi, 'v', c)] * 4)
+        rer.setdefault(hs0, []).extend([(wi, 'b', c0)] * 4)
+    again = collections.defaultdict(list)
+    for hs, lst in sorted(rer.items()):
+        out = I.run_cases('c06', [x[2] for x in lst], jobs=max(1, min(ctx.jobs, (len(lst) + 5) // 6)), hashseed=hs, tag='c06p' + hs)
+        for (wi, which, _c), a in zip(lst, out):
+            again[(wi, which)].append(json.dumps(a.get('entries')) if isinstance(a, dict) else str(a))
+    for wi, (name, c, hs), (name0, c0, hs0) in pending:
+        selfdis = len(set(again[(wi, 'v')]) | {json.dumps(results[(wi, name)].get('entries'))}) > 1 or \
+            len(set(again[(wi, 'b')]) | {json.dumps(results[(wi, name0)].get('entries'))}) > 1
+        stats['order:worlds with header differences between layouts (sequences equal): ' +
+              ('the same layout also disagrees with itself run to run' if selfdis else 'no self-disagreement seen in 5 runs of either layout')] += 1
+    return results, viol, stats, nontriv
+
 def thin(viol):
     out, seen, plain = [], {}, 0
     harmless = [v for v in viol if v.get('_harmless')]
@@ -709,6 +1014,15 @@ def run(ctx):
     impl, v1, s1 = eval_loop(ctx, lc, variant)
     groups = cli_cases(rng, ctx.quick)
     results, v2, s2 = eval_cli(ctx, groups, variant)
+    # (iii) record order / identity on real objects, (iv) layouts of conflicting records through the real CLI; the corpus first
+    vcorpus = [o['case'] for o in load_corpus() if o.get('kind') == 'vr' or (o.get('kind') == 'correspondence' and o.get('case', {}).get('kind') == 'vr')]
+    vcases = vcorpus + vr_cases(rng, ctx.quick)
+    v3, s3, nt3 = eval_vr(ctx, vcases)
+    ogroups = [('corpus-ord%d' % k, o['world'], order_variants(o['world'], 'corpus-ord%d' % k))
+               for k, o in enumerate(load_corpus()) if o.get('kind') == 'order-world']
+    ogroups += order_cases(rng, ctx.quick)
+    _ores, v4, s4, nt4 = eval_order(ctx, ogroups)
+    n_order = sum(len(vs) for _, _, vs in ogroups)
     nontriv = set()
     for c, r in zip(lc, impl):
         if isinstance(r, dict) and r.get('gathered') and any(sk for _, sk in r['gathered']) and any(not sk for _, sk in r['gathered']) \
@@ -720,24 +1034,43 @@ def run(ctx):
         if isinstance(base, dict) and base.get('peptides'):
             for name, c, hs in vs:
                 nontriv.add(json.dumps(['cli', wi, name]))
-    stats = dict(s1); stats.update(s2)
+    stats = dict(s1); stats.update(s2); stats.update(s3); stats.update(s4)
     sample = {k: v for k, v in lc[len(corpus) * 2].items() if k not in ('world', 'gvfs')} if len(lc) > len(corpus) * 2 else {}
-    return dict(evaluations=len(lc) + n_cli, distinct_nontrivial=len(nontriv),
+    return dict(evaluations=len(lc) + n_cli + len(vcases) + n_order, distinct_nontrivial=len(nontriv) + nt3 + nt4,
                 rule='loop cases: generated single-chromosome worlds (2-7 transcripts with SNV/INDEL records, ~30%% of the transcripts with only '
                      'intronic records = naturally skipped, forced skip subsets - exhaustive for <= 4 (quick) / 6 (thorough) transcripts - and '
                      '--noncanonical-transcripts) x threads 1..5; non-trivial = at least one transcript skipped and one dispatched. cli cases: '
                      'per world baseline + 3 layouts + idx + index dir + 2 hash seeds + threads 2,3(,4) with the real pathos pool + combined; '
-                     'non-trivial = baseline peptide set non-empty. distinct by (world, pattern, threads) / (world, variant)',
-                samples=[sample], outcome=stats, loop_shape_in_source=variant, violations=thin(v1 + v2),
+                     'non-trivial = baseline peptide set non-empty. distinct by (world, pattern, threads) / (world, variant). record-order cases: '
+                     'lists of 2-7 VariantRecord objects crowded on one or two positions (duplicates, == with other attrs, SNV / RNAEditingSite / '
+                     'INDEL / MNV / Fusion / Insertion / Deletion / Substitution): six comparison methods, hash equality, sorted() and set() of 2-4 '
+                     'delivery orders vs Model/VarRecord.v; non-trivial = conflict-free list of >= 2 records. order cases: a transcript with a '
+                     'conflicting pair / triple at one position, every order in one GVF x 3 hash seeds + split over two files in either file order; '
+                     'non-trivial = world with a non-empty peptide set',
+                samples=[sample], outcome=stats, loop_shape_in_source=variant, violations=thin(v1 + v2 + v3 + v4),
                 assumptions=['gather_data_for_call_variant is deterministic for a fixed input (its result does not depend on the batch it lands in)',
                              'the serial pool used to observe batches returns the same results as pathos ParallelPool.map; checked by comparing the '
                              'peptide sets of observed and real runs with the same thread count'],
                 trusted_base=['pathos scheduling, pickling of dispatches and OS process behaviour are outside the model (partial): covered only by the '
                               'real-pool runs of stream (ii)', 'GVF writer and world generator of the harness (harness/props/c06.py, harness/lib/gen_reference.py)',
-                              'wrapping of ParallelPool / caller_reducer / gather_data_for_call_variant inside the worker (harness/impl/c06.py)'])
+                              'wrapping of ParallelPool / caller_reducer / gather_data_for_call_variant inside the worker (harness/impl/c06.py)',
+                              'record order: CPython list.sort() returns a `<`-sorted rearrangement when `<` is a strict total order on the elements '
+                              '(sorted_unique then identifies it); its behaviour on > 2 conflicting records (binary insertion) is not modelled; '
+                              'attribute values are compared through repr(); hash(tuple) is a function of the tuple'])
 
 def replay(ctx, obj):
     variant = O.call('c06_loop_variant', [])
+    if obj.get('kind') == 'vr' or (obj.get('kind') == 'correspondence' and obj.get('case', {}).get('kind') == 'vr'):
+        viol, stats, _ = eval_vr(ctx, [obj['case']])
+        return dict(violations=thin(viol))
+    if obj.get('kind') == 'order-world':
+        _r, viol, stats, _ = eval_order(ctx, [('replay', obj['world'], order_variants(obj['world'], 'replay'))])
+        return dict(violations=thin(viol))
+    if obj.get('kind') == 'order':
+        w = dict(kind='replay', group=[dict(id=i) for i in obj.get('group', [])])
+        vs = [('baseline', obj['baseline_case'], obj.get('baseline_hashseed', '0')), (obj['variant'], obj['case'], obj.get('hashseed', '0'))]
+        _r, viol, stats, _ = eval_order(ctx, [('replay', w, vs)])
+        return dict(violations=thin(viol))
     c = obj['case']
     if c.get('kind') == 'loop' or obj.get('kind') == 'case':
         c = dict(c, wid='replay')
@@ -753,6 +1086,14 @@ def replay(ctx, obj):
 def search_failing_input(ctx, broken):
     """A theorem of Props/C06.v no longer checks (typically loop_modelled: the dispatch loop has a shape the
     translator does not know): look for a concrete skip pattern / thread count on which the statement fails."""
+    th = (broken or {}).get('theorem') or ''
+    if th.startswith('code_varrecord') or th.startswith('code_featurelocation') or th in VR_THEOREMS:
+        # an obligation about the record order / identity: real objects vs the model, and the statement on the real sorted()
+        viol, stats, _ = eval_vr(ctx, vr_cases(ctx.rng, False)[:1500])
+        real = sorted((v for v in viol if not v.get('no_input')), key=lambda v: v.get('_size', 0))
+        if real:
+            return dict(real[0]['replay_obj'], what=real[0]['what'][:400])
+        return None
     variant = O.call('c06_loop_variant', [])
     cases = loop_cases(ctx.rng, True)[:400]
     impl, viol, stats = eval_loop(ctx, cases, variant if variant in (0, 1) else 1)
